@@ -96,6 +96,9 @@ def _cmp_atom(op: ast.cmpop, a: ast.AST, b: ast.AST) -> BF:
     if isinstance(op, ast.LtE):
         return mk_not(_cmp_atom(ast.Lt(), b, a))
     if isinstance(op, ast.In):
+        if isinstance(b, (ast.List, ast.Tuple, ast.Set)) and b.elts and all(isinstance(x, (ast.Name, ast.Attribute, ast.Constant)) for x in b.elts):
+            # membership in a literal container does not depend on its kind or order: it is the disjunction of the equalities
+            return mk_or([_cmp_atom(ast.Eq(), a, x) for x in b.elts])
         return atom(f"{_expr_text(a)} in {_expr_text(b)}")
     if isinstance(op, ast.Is):
         x, y = _expr_text(a), _expr_text(b)
